@@ -262,6 +262,11 @@ def _canon_func(f, depth, stack, with_state=True):
             except ValueError:
                 cells.append(["emptycell"])
         out.append(["closure", cells])
+    fd = getattr(f, "__dict__", None)
+    if fd:
+        # attributes hung on the function object (f.cache = {...})
+        out.append(["attrs", _canon({k: v for k, v in fd.items() if k != "__wrapped__"},
+                                    depth + 1, stack)])
     return out
 
 
@@ -308,6 +313,8 @@ def _canon(o, depth, stack):
     if t is bool:
         return ["bool", 1 if o else 0]
     if t is bytes:
+        if len(o) > (1 << 20):
+            return ["bytes-huge", len(o), hashlib.sha256(o).hexdigest()]
         return ["bytes", o.hex()]
     if t is str:
         return ["str", o]
@@ -323,6 +330,11 @@ def _canon(o, depth, stack):
     fqb, fqpb = field_bases()
     stack.add(oid)
     try:
+        if (t is tuple or t is list) and len(o) > 50000:
+            # e.g. a 20-million-fold repetition produced by `int * tuple`: its length
+            # and a prefix identify it well enough; not rebuildable (never an input)
+            return ["huge-" + t.__name__, len(o),
+                    [_canon(x, depth + 1, stack) for x in o[:32]]]
         if t is tuple:
             return ["tuple", [_canon(x, depth + 1, stack) for x in o]]
         if t is list:
